@@ -190,4 +190,25 @@ def projected3d_check():
         ft = np.tile(free.ravel(), reps)
         if ((gt != wt) & ~ft).any():
             out.append(('contains3d_chunked[%s]' % name, int(wt.sum()), int(gt.sum())))
+    # the other chunked evaluation: a region selection with a pretransform is evaluated in chunks of 10^6 elements; the
+    # lattice is tiled above that size (1-d and 2-d datasets) and every tile must give the answer of the lattice
+    from glue.core import Data
+    from glue.core.subset import RoiSubsetState
+    X2, Y2 = np.meshgrid(ax, ax, indexing='ij')
+    regions = {'rect': (rect, (X2 > -1.5) & (X2 < 1.5) & (Y2 > -1.0) & (Y2 < 1.0),
+                        (np.abs(np.abs(X2) - 1.5) < 1e-9) | (np.abs(np.abs(Y2) - 1.0) < 1e-9)),
+               'circle': (R.CircularROI(0.5, 0.0, 2.25), (X2 - 0.5) ** 2 + Y2 ** 2 < 2.25 ** 2,
+                          np.abs((X2 - 0.5) ** 2 + Y2 ** 2 - 2.25 ** 2) < 1e-9)}
+    reps = 2 + 1000000 // X2.size
+    for rname, (roi, want2, free2) in regions.items():
+        for layout in ('1d', '2d'):
+            xs, ys = np.tile(X2.ravel(), reps), np.tile(Y2.ravel(), reps)
+            wt, ft = np.tile(want2.ravel(), reps), np.tile(free2.ravel(), reps)
+            if layout == '2d':
+                xs, ys, wt, ft = (a.reshape(reps, X2.size) for a in (xs, ys, wt, ft))
+            d = Data(x=xs, y=ys)
+            state = RoiSubsetState(xatt=d.id['x'], yatt=d.id['y'], roi=roi, pretransform=lambda u, v: (u, v))
+            got = np.asarray(state.to_mask(d))
+            if got.shape != wt.shape or ((got != wt) & ~ft).any():
+                out.append(('pretransform_chunked[%s,%s]' % (rname, layout), int(wt.sum()), int(got.sum()) if got.shape == wt.shape else list(got.shape)))
     return out
